@@ -673,7 +673,7 @@ def gen_cases(ctx, tag="cases", scale=1.0):
         cases.append(gen_op(r))
     for _ in range(int((250 if q else 2500) * scale)):
         cases.append(gen_wk(r))
-    for i in range(int((420 if q else 4200) * scale)):
+    for i in range(int((320 if q else 4200) * scale)):
         cases.append(gen_fz(r, over=(i % 8 == 7), quick=q))
     return cases
 
